@@ -1,6 +1,7 @@
 import CedarVerif.Lemmas.ManifestCheck
 import CedarVerif.Lemmas.ManifestEnd
 import CedarVerif.Lemmas.ManifestValid
+import CedarVerif.Lemmas.TypecheckPolicy
 import CedarVerif.Thm.C01
 import CedarVerif.Thm.C11
 /-
@@ -66,7 +67,9 @@ What is PROVED here:
                                  conditions: `NoRecOps` (syntactic, on the typed AST: `==` does not compare records,
                                  `contains` does not look for a record; for every other operator the typing rules force
                                  non-record operands, `binary_inv`) and `CtxWF` (the context is a map);
-  * `decision_sliced_valid`      the same through C01's characterisation of the decision.
+  * `decision_sliced_valid`      the same through C01's characterisation of the decision;
+  * `manifest_sound_valid_accepted`  the same from acceptance of the policies by `checkPolicy .strict` in ALL environments
+                                 (C03's policy-level premise): the request's environment is one of them.
 
 What REMAINS: enlarging the fragment (record / set literals, `==` / `contains` on records; extension calls are covered by
 `manifest_sound_valid` / `eval_sim` but not by the older `InFrag`-based theorems); the "keeps
@@ -507,6 +510,32 @@ theorem decision_sliced_valid (s : Schema) (hWF : SchemaClosed s) (env : Request
       (∃ p, p ∈ ps ∧ p.effect = .permit ∧ Sat req es p) ∧ ¬ (∃ p, p ∈ ps ∧ p.effect = .forbid ∧ Sat req es p) := by
   rw [manifest_sound_valid s hWF env req es es' ps t henv hslots hreq hst hact hctx hps hm hs]
   exact Cedar.C01.allow_iff req es _
+
+/-- `manifest_sound_valid` AT POLICY LEVEL: for static policies of the fragment that the strict typechecker model ACCEPTS
+(`checkPolicy .strict … = some vs`, `accepted vs`: no request environment fails — C03's `strict_validation_sound` premise),
+the environment of a conformant request is one of the environments typechecked (`conformant_request_env`), and if no policy
+is typed `False` in it (and `NoRecOps` holds there), authorization over the store sliced by the manifest of that environment
+equals authorization over the full store. -/
+theorem manifest_sound_valid_accepted (s : Schema) (hWF : SchemaClosed s) (req : Request) (es : Entities) (ps : List Policy)
+    (hreq : ConformsRequest s req) (hst : StoreConforms s es) (hact : Cedar.C03.ActionsPresent s es) (hctx : CtxWF req)
+    (hps : ∀ p, p ∈ ps → p.env = [] ∧ FragE p.condition ∧
+      ∃ vs, checkPolicy .strict s .absent .absent p.condition = some vs ∧ accepted vs = true) :
+    ∃ env, env ∈ s.envs .absent .absent ∧ EnvMatches s env req ∧
+      ∀ (t : RootAccessTrie) (es' : Entities),
+        (∀ p, p ∈ ps → NoRecOps (typedAst s env p.condition []) ∧ checkEnv .strict s env p.condition ≠ some .ff) →
+        manifestOfEnvs s ⟨env.principal, env.action, env.resource⟩ (ps.map (fun p => typedAst s env p.condition [])) = .ok t →
+        sliceStore (some t) req es = .ok es' →
+        isAuthorized req es' ps = isAuthorized req es ps := by
+  obtain ⟨env, hmem, henv, hp, hr⟩ := Cedar.C03.conformant_request_env hreq
+  refine ⟨env, hmem, henv, fun t es' hside hm hs => ?_⟩
+  refine manifest_sound_valid s hWF env req es es' ps t henv ⟨hp, hr⟩ hreq hst hact hctx ?_ hm hs
+  intro p hpm
+  obtain ⟨h1, h2, vs, hcp, hacc⟩ := hps p hpm
+  obtain ⟨v, hv, hvm⟩ := Cedar.C03.checkPolicy_mem hcp hmem
+  have hne : v ≠ .fail := by
+    have := List.all_eq_true.mp hacc _ hvm
+    simpa using this
+  exact ⟨h1, h2, (hside p hpm).1, v, hv, hne, fun e => (hside p hpm).2 (by rw [hv, e])⟩
 
 /-! ### non-vacuity of `manifest_sound_valid`: EVERY hypothesis instantiated
 
